@@ -1,4 +1,5 @@
 import Invoke.Lemmas.SpellFrame
+import Invoke.Lemmas.SpellSigKwargs
 /-! # C01 — every spelling of an intended invocation parses to exactly that invocation
 
 Model: `Invoke/Model/Parser.lean` (the argv state machine of `invoke/parser/parser.py` + `argument.py` +
@@ -54,8 +55,10 @@ justification:
      all its positionals (an invocation supplies every required argument);
   9. no token is the `--` remainder sentinel (documented in `invoke.rst`).
 
-NOT covered (hence `_partial`): the signature → `Ctx` step (`Task.get_arguments`, property C09) is taken from the
-real code by the correspondence check rather than modelled here; core options interleaved with task tokens (C18);
+NOT covered by `parse_spelling_partial` itself: the signature → `Ctx` step (`Task.get_arguments`, property C09) — that gap
+is closed by the composition theorem `parse_spelling_from_signatures` at the end of this file (contexts built by
+C09's `mkCtx`, items given as mentions of the signature's PARAMETERS, side conditions about the signature only,
+conclusion about the keyword arguments the task receives); still open: core options interleaved with task tokens (C18);
 values whose textual form `int()` accepts beyond ASCII sign+digits.
 -/
 open Inv Inv.M
@@ -203,5 +206,177 @@ example : (parseArgv none exReg false [T "clean", T "-nfoo=bar"]).toOption.map
     documented ambiguity error, so side condition 7 cannot be dropped -/
 example : (match parseArgv none exReg false [T "build", T "x", T "--opt", T "clean"] with
     | .error (.parse k _) => k | _ => "") = "ambiguous" := by decide
+
+/-! ## Composition with C09: from task SIGNATURES to the keyword arguments the task receives
+
+`TaskDecl` = (name, decorator options, parameters); its parser context is C09's `mkCtx` (`TaskDecl.ctx?`); `SigWorld decls
+reg` says the registry is exactly the contexts built from the declarations (`Built`), all names are ASCII identifiers
+(`IdentSig`, `NoBlankName`: C09's hypotheses) and no task name looks like a flag.  A call is a task name plus a list of
+`SItem`s — mentions of PARAMETERS by their python name in one of the documented forms; `SItem.elab` derives the tokens: the
+long flag is `toFlag` of the (dashed) parameter name, the short flag is the one `arg_opts` assigned (or the name itself
+if it is one character), a positional token goes to the parameter's slot in `get_arguments()`, `--no-` is
+`ArgSpec.inverseName`.
+
+`sigChainOKb` (decidable, evaluated per generated case by `drv_spell`) states the side conditions ON THE SIGNATURE:
+  * a value parameter is not boolean / counter (`takesVal`), is mentioned once unless it is a list (`done`), its value
+    is admissible for the declared type (`castable`) and is not one of the task's own flag tokens (`flagToks`);
+  * bare flags only for booleans and for counters with an integer default (`toggles`); `--no-` only for default-True
+    booleans (`hasInverse`);
+  * a positional token goes to the first positional parameter still without a value (`firstPending`) and is not
+    flag-like (or is an unsplittable flag-like token) and not a core flag;
+  * optional-value parameters: value / bare form only once every positional has a value (`pending = []`), value not a task
+    name, a bare one followed by another flag of the task or ending the command line;
+  * every call leaves no positional pending; the core context accepts the first task name.
+Everything else the parser-level theorem needs is DERIVED from C09: a flag token reaches its own parameter's slot
+(`flag_reaches_its_argument`), flag tokens are pairwise distinct so `--no-x` is not also a flag (`flags_distinct`), the
+tokens are well-formed unsplit flags without `=` (`long_flag_wellformed`, `short_is_alnum`), the arguments start as
+declared (`context_holds_the_arguments`), task names are not flags of any task (all flag tokens start with `-`), and the
+evolving-context conditions (`fresh`, `firstMissing`, lists stay lists, counters stay counters) follow from the
+tracking invariant `Tracks` (`Lemmas/SpellTrack.lean`).
+
+Still open: task ALIASES (`mkCtx` builds contexts without aliases, so calls by alias are covered by
+`parse_spelling_partial` only), explicit `positional=[…]` lists are covered (they are part of `TaskOpts`) but the harness
+does not generate them, core options between task tokens (C18). -/
+
+/-- HEADLINE (composition C09 ∘ C01): for task signatures whose contexts `mkCtx` builds, every command line that spells a
+    chain of calls by mentions of the signatures' parameters (side conditions on the signatures only) parses; nothing is
+    unparsed or left over; there is exactly one task context per call, in order, carrying the task's name; and FOR EVERY
+    PARAMETER of the called task the keyword arguments hold, under the parameter's own name, the intended value — the
+    declared start value followed by that parameter's own mentions (and nobody else's), typed by the declared default
+    (`intendedStep`; see `intended_values_typed`), hence the declared default when the parameter is not mentioned
+    (`unmentioned_shows_declared_default`). -/
+theorem parse_spelling_from_signatures (ic : Option Ctx) (decls : List TaskDecl) (reg : List Ctx) (ign : Bool)
+    (ch : List SCall) (w : SigWorld decls reg) (hok : sigChainOKb ic decls ch = true)
+    (hbody : noSentinelB (renderChain decls ch) = true) :
+    ∃ r, parseArgv ic reg ign (renderChain decls ch) = .ok r ∧ r.unparsed = [] ∧ r.remainder = [] ∧
+      r.contexts.length = ic.toList.length + ch.length ∧
+      ∀ (n : Nat) (k : SCall) (d : TaskDecl), ch[n]? = some k → findDecl decls k.tname = some d →
+        ∃ cn, r.contexts[ic.toList.length + n]? = some cn ∧ cn.name = some d.name ∧
+          cn.asKwargs.length = d.args.length ∧
+          ∀ p ∈ d.params, ∃ j a, d.slot p.name = some (j, a) ∧
+            cn.asKwargs[j]? = some (p.name, intendedValue a (k.items.flatMap (SItem.mentions p.name))) := by
+  obtain ⟨calls, hcalls, hparse⟩ := parse_from_signatures ic decls reg ign ch w hok hbody
+  obtain ⟨hlen, hget⟩ := elabChain_get hcalls
+  refine ⟨_, hparse, rfl, rfl, by simp [hlen], ?_⟩
+  intro n k d hk hf
+  obtain ⟨c, hc, hcall⟩ := hget n k hk
+  obtain ⟨c0, its, hc0, hits, rfl⟩ := elabCall_spec hcall hf
+  refine ⟨its.foldl Item.apply c0, ?_, ?_, result_kwargs_length hc0 its, ?_⟩
+  · simp [List.getElem?_append_right, hc, Call.result]
+  · rw [foldl_apply_name]; exact (mkCtx_name hc0).1
+  · intro p hp
+    obtain ⟨j, a, hslot⟩ := slot_exists hp
+    obtain ⟨hj, hpy, _⟩ := slot_spec hslot
+    refine ⟨j, a, hslot, ?_⟩
+    rw [result_kwargs_slot hc0 its hj, elabItems_effs hslot k.items hits, hpy]
+
+/-- TYPED ACCORDING TO THE DECLARED DEFAULT: what `intendedValue` is, kind by kind (the kind of the argument spec is the
+    one C09's `kind_from_default` derives from the parameter's default). -/
+theorem intended_values_typed (a : ArgSpec) :
+    (a.kind = .str → ∀ v, intendedValue a [.val v] = .s v) ∧
+    (a.kind = .int → ∀ v n, pyInt? v = some n → intendedValue a [.val v] = .i n) ∧
+    (a.kind = .list → a.incrementable = false → ∀ vs, intendedValue a (vs.map Eff.val) = .l vs) ∧
+    (a.incrementable = false → intendedValue a [.on] = .b true) ∧
+    (intendedValue a [.off] = .b false) ∧
+    (a.incrementable = true → ∀ n, a.default = .i n → ∀ m, intendedValue a (List.replicate m Eff.on) = .i (n + m)) :=
+  ⟨intended_str a, intended_int a, intended_list a, intended_flag a, intended_noflag a, intended_counter a⟩
+
+/-- DECLARED DEFAULTS FOR EVERYTHING NOT MENTIONED: a parameter without mentions shows the value of its freshly declared
+    argument, which is the function's own default (`[]` for a list-type parameter) — C09's `CarriesDefault`. -/
+theorem unmentioned_shows_declared_default (d : TaskDecl) (a : ArgSpec) (ha : a ∈ d.args) :
+    intendedValue a [] = (Arg.init a).value ∧
+    ∃ p ∈ d.params, a.pyName = p.name ∧ (p.default ≠ .empty → CarriesDefault p a (intendedValue a [])) :=
+  ⟨rfl, unmentioned_carries_default ha⟩
+
+/-! ### Non-vacuity: two real signatures, a chain mentioning parameters in every form, the same task twice
+
+    @task(iterable=['lst'], incrementable=['cnt'], optional=['log'])
+    def build(c, pos, name='dflt', num=3, quiet=True, force=False, lst=None, cnt=0, log=None)
+    @task
+    def clean(c, name=None) -/
+
+def buildDecl : TaskDecl :=
+  { name := T "build",
+    opts := { iterable := [T "lst"], incrementable := [T "cnt"], optional := [T "log"] },
+    params := [⟨T "pos", .empty⟩, ⟨T "name", .str (T "dflt")⟩, ⟨T "num", .int 3⟩, ⟨T "quiet", .bool true⟩,
+               ⟨T "force", .bool false⟩, ⟨T "lst", .none⟩, ⟨T "cnt", .int 0⟩, ⟨T "log", .none⟩] }
+def cleanDecl : TaskDecl := { name := T "clean", opts := {}, params := [⟨T "name", .none⟩] }
+def sigDecls : List TaskDecl := [buildDecl, cleanDecl]
+def sigReg : List Ctx := [orEmpty buildDecl.ctx?, orEmpty cleanDecl.ctx?]
+
+/-- the hypotheses about the declarations are satisfiable: the registry IS what `mkCtx` builds -/
+theorem sigWorld : SigWorld sigDecls sigReg where
+  built := by
+    have key : ∀ d : TaskDecl, (d.ctx?).toOption.isSome = true → d.ctx? = .ok (orEmpty d.ctx?) := by
+      intro d h
+      cases hc : d.ctx? with
+      | ok c => rfl
+      | error e => rw [hc] at h; cases h
+    exact .cons (key buildDecl (by decide)) (.cons (key cleanDecl (by decide)) .nil)
+  good := by
+    intro d hd
+    simp only [sigDecls, List.mem_cons, List.not_mem_nil, or_false] at hd
+    rcases hd with rfl | rfl
+    · exact ⟨by unfold IdentSig; decide, by unfold NoBlankName; decide⟩
+    · exact ⟨by unfold IdentSig; decide, by unfold NoBlankName; decide⟩
+  plain := by
+    intro d hd
+    simp only [sigDecls, List.mem_cons, List.not_mem_nil, or_false] at hd
+    rcases hd with rfl | rfl <;> decide
+
+/-- `build x --name=a=b -u -5 --no-quiet -fc -l one --lst two -c  clean -nbuild  build --pos=y --log` -/
+def sigCall0 : SCall :=
+  ⟨T "build", [.pos (T "pos") (T "x"), .longEq (T "name") (T "a=b"), .shortSpaced (T "num") (T "-5"),
+               .noFlag (T "quiet"), .block (T "force") [T "cnt"], .shortSpaced (T "lst") (T "one"),
+               .longSpaced (T "lst") (T "two"), .flagShort (T "cnt")]⟩
+def sigChain : List SCall :=
+  [ sigCall0, ⟨T "clean", [.shortGlued (T "name") 'b' (T "uild")]⟩,
+    ⟨T "build", [.longEq (T "pos") (T "y"), .bareLong (T "log")]⟩ ]
+
+example : renderChain sigDecls sigChain =
+    [T "build", T "x", T "--name=a=b", T "-u", T "-5", T "--no-quiet", T "-fc", T "-l", T "one", T "--lst", T "two", T "-c",
+     T "clean", T "-nbuild", T "build", T "--pos=y", T "--log"] := by decide
+
+/-- the signature-level hypotheses hold for this chain (with and without a core context) … -/
+example : sigChainOKb (some coreCtx) sigDecls sigChain = true := by decide
+example : sigChainOKb none sigDecls sigChain = true := by decide
+example : noSentinelB (renderChain sigDecls sigChain) = true := by decide
+
+/-- … so the theorem applies: -/
+example : ∃ r, parseArgv (some coreCtx) sigReg false (renderChain sigDecls sigChain) = .ok r ∧ r.contexts.length = 1 + 3 := by
+  obtain ⟨r, h, _, _, hl, _⟩ :=
+    parse_spelling_from_signatures (some coreCtx) sigDecls sigReg false sigChain sigWorld (by decide) (by decide)
+  exact ⟨r, h, hl⟩
+
+/-- its per-parameter clause, for `cnt` of the first call (mentioned inside the block `-fc` and once more as `-c`): -/
+example : ∃ r cn j a, parseArgv (some coreCtx) sigReg false (renderChain sigDecls sigChain) = .ok r ∧
+    r.contexts[1 + 0]? = some cn ∧ buildDecl.slot (T "cnt") = some (j, a) ∧
+    cn.asKwargs[j]? = some (T "cnt", intendedValue a [.on, .on]) := by
+  obtain ⟨r, h, _, _, _, hall⟩ :=
+    parse_spelling_from_signatures (some coreCtx) sigDecls sigReg false sigChain sigWorld (by decide) (by decide)
+  obtain ⟨cn, hcn, _, _, hp⟩ := hall 0 sigCall0 buildDecl rfl rfl
+  obtain ⟨j, a, hs, hk⟩ := hp ⟨T "cnt", .int 0⟩ (by decide)
+  refine ⟨r, cn, j, a, h, hcn, hs, ?_⟩
+  rw [hk]
+  have : sigCall0.items.flatMap (SItem.mentions (T "cnt")) = [.on, .on] := by decide
+  rw [this]
+
+/-- … and this is what the three task invocations receive (typed; declared defaults for the unmentioned; the second
+    `build` is independent of the first): -/
+example : (parseArgv none sigReg false (renderChain sigDecls sigChain)).toOption.map (fun r => r.contexts.map Ctx.asKwargs) =
+    some [ [(T "pos", .s (T "x")), (T "name", .s (T "a=b")), (T "num", .i (-5)), (T "quiet", .b false), (T "force", .b true),
+            (T "lst", .l [T "one", T "two"]), (T "cnt", .i 2), (T "log", .none)],
+           [(T "name", .s (T "build"))],
+           [(T "pos", .s (T "y")), (T "name", .s (T "dflt")), (T "num", .i 3), (T "quiet", .b true), (T "force", .b false),
+            (T "lst", .l []), (T "cnt", .i 0), (T "log", .b true)] ] := by decide
+
+example : ∀ a, a.incrementable = true → a.default = .i 0 → intendedValue a [.on, .on] = .i 2 := by
+  intro a hi hd
+  have := (intended_values_typed a).2.2.2.2.2 hi 0 hd 2
+  simpa using this
+
+example : ∀ a ∈ buildDecl.args, ∃ p ∈ buildDecl.params, a.pyName = p.name ∧
+    (p.default ≠ .empty → CarriesDefault p a (intendedValue a [])) :=
+  fun a ha => (unmentioned_shows_declared_default buildDecl a ha).2
 
 end Inv.C01
